@@ -13,6 +13,37 @@ CLAIMED = {
         "that upstream calls return. Bounded: <=3 callers exhaustively, <=6 callers sampled.",
    technique="TLA+ spec + TLC model checking; trace validation and behaviour replay via hook-gated scheduler",
    design="4/C12"),
+ "C02": dict(
+   text="ParChunker.tla models IndexFromFile segment by segment (every segment between two hook points performs at most one shared "
+        "operation); TLC explores all boundary sets x zero intervals of small files x all interleavings x cancellation and checks that the "
+        "aggregated index equals the single-stream chain of the rolling-hash rule. The real IndexFromFile runs under a gate scheduler "
+        "on generated files; the instance (boundary and null positions) is computed by an independent implementation of the rule and "
+        "Trace_ParChunker.tla validates every event, every chunk and the returned index (IDs, sizes, parameters).",
+   note="Trusts the independent buzhash/rule oracle (cross-checked with the casync fixture) and SHA512/256 as leaves; read fragmentation of "
+        "the single-stream Chunker is covered by the Chunker driver when listed in the evidence.",
+   technique="TLA+ spec + TLC model checking; trace validation of the hook-instrumented implementation under randomised/PCT schedules",
+   design="4/C02"),
+ "C06": dict(
+   text="PipelineMC.tla (feeder/worker/errgroup skeleton with the ChunkStorage and Copy disciplines) is explored exhaustively over all "
+        "interleavings and all fault plans with <=2-3 failing store calls; the real ChopFile/Copy/ChunkStream run over a gated "
+        "fault-injecting store for every single-fault plan of small inputs and the traces are validated by Trace_Pipeline.tla, with the "
+        "real store read back after every run.",
+   note="Library entry points stand for the make/chop/cache/tar -i commands; the target store's pre-existing content is assumed valid.",
+   technique="TLA+ spec + TLC model checking; trace validation with fault injection at every store call",
+   design="4/C06"),
+ "C07": dict(
+   text="The same pipeline and parallel-chunker specifications with Cancel enabled in every state; the real entry points are cancelled at "
+        "every recorded event of small runs and the traces validated: success is only accepted when all work is complete.",
+   note="Covers the library entry points listed in the evidence (coverage.entry_points); CLI signal delivery is a thin wrapper around context cancellation.",
+   technique="TLA+ spec + TLC model checking; trace validation with cancellation at every hook point",
+   design="4/C07"),
+ "C17": dict(
+   text="VerifyIndex.tla: TLC evaluates the batch arithmetic for every K<=120 (700 thorough) and n<=64 (batches partition the index); the real "
+        "VerifyIndex is run on blobs with a single altered byte, swapped chunks, truncation and extension and its verdict compared with the "
+        "specification's; the batches actually fed must cover every index entry.",
+   note="SHA512/256 decides which ranges match (leaf).",
+   technique="TLA+ spec evaluated by TLC; trace validation of the real verdict and batches",
+   design="4/C17"),
 }
 
 NOT_YET = "check not built yet in this round (planned in DESIGN.md section 4)"
